@@ -168,6 +168,46 @@ pub fn c02(opts: &Opts) -> Report {
                 if !parse_agree(ctx, "C02", &text).0 { return; }
                 if i < 2 { ctx.rep.sample(format!("{text} => {ops:?}")); }
             }
+            // the canonical printer of the MODEL (Model/Syntax.v print_block, the subject of C02_canonical_printer_roundtrip
+            // and C02_every_spelling_roundtrip): its text, given to the real parser, must come back as these operations
+            {
+                let r = ctx.drv.request(&format!("PRINT {}", wire_ops(&ops)));
+                if r.len() >= 2 && r[0] == "1" {
+                    let text = unhex(&r[1]);
+                    ctx.rep.eval(); ctx.rep.bump("model_printer_texts");
+                    let ok = match real::parse(&text) { real::Parsed::Ok(tpl) => sections_from_real(&tpl) == vec![Section::Sec(ops.clone())] && !tpl.is_debug(), _ => false };
+                    if !ok {
+                        viol(ctx, "property", format!("C02: the model printer writes {ops:?} as {text:?}, which the parser does not read back as those operations"),
+                             vec![("template", text.clone()), ("expected_ops", format!("{ops:?}")), ("theorem", "C02_canonical_printer_roundtrip".into())]);
+                        return;
+                    }
+                    if !parse_agree(ctx, "C02", &text).0 { return; }
+                } else { ctx.rep.bump("not_in_printable_fragment"); }
+            }
+            // the same block embedded in a mixed template: after literal text, and directly after a ${...} group
+            if i % 4 == 1 && !dbg {
+                let b = print_block(&ops);
+                let var = *ctx.rng.pick(&["HOME", "a", "DIR:-${HOME}/x"]);
+                let (text, expect) = if ctx.rng.chance(1, 2) {
+                    (format!("${{{var}}}{b}"), vec![Section::Lit(format!("${{{var}}}")), Section::Sec(ops.clone())])
+                } else {
+                    (format!("${{{var}}}{b}{b}.bak"), vec![Section::Lit(format!("${{{var}}}")), Section::Sec(ops.clone()), Section::Sec(ops.clone()), Section::Lit(".bak".into())])
+                };
+                ctx.rep.eval(); ctx.rep.bump("after_shell_variable");
+                match real::parse(&text) {
+                    real::Parsed::Ok(tpl) => {
+                        let secs = sections_from_real(&tpl);
+                        if secs != expect {
+                            viol(ctx, "property", format!("C02: {text:?} is understood as {secs:?} instead of {expect:?}"),
+                                 vec![("template", text.clone()), ("expected", format!("{expect:?}")), ("observed", format!("{secs:?}")), ("theorem", "C02_all_spellings".into())]);
+                            return;
+                        }
+                    }
+                    real::Parsed::Err(e) => { viol(ctx, "property", format!("C02: {text:?} is rejected: {e}"), vec![("template", text.clone()), ("observed", format!("Err({e})")), ("theorem", "C02_all_spellings".into())]); return; }
+                    real::Parsed::Panic => { viol(ctx, "property", format!("C02: parsing {text:?} panics"), vec![("template", text.clone()), ("observed", "Panic".into()), ("theorem", "C03_parse_total".into())]); return; }
+                }
+                if !parse_agree(ctx, "C02", &text).0 { return; }
+            }
         })
 }
 
@@ -329,6 +369,22 @@ pub fn c12(opts: &Opts) -> Report {
             let t: String = if i < sweep { token_string(i, max_tok).unwrap() }
                 else if i < sweep + wrapped { format!("{{{}}}", token_string(i - sweep, max_tok - 1).unwrap()) }
                 else if (i - sweep - wrapped) % 5 == 4 { numeric_extreme(&mut ctx.rng) }
+                else if (i - sweep - wrapped) % 10 == 3 {
+                    // a block (valid or corrupted) DIRECTLY after a ${...} shell-variable group: it is a section, not literal text
+                    let ops = wf_pipeline(&mut ctx.rng, 3); let b = print_block(&ops);
+                    let b = if ctx.rng.chance(1, 2) { corrupt(&mut ctx.rng, &b) } else { b };
+                    let var = *ctx.rng.pick(&["HOME", "a", "DIR:-${HOME}/x", "x y", ""]);
+                    ctx.rep.bump("after_shell_variable");
+                    format!("{}${{{var}}}{b}{}", if ctx.rng.chance(1, 2) { "p " } else { "" }, if ctx.rng.chance(1, 2) { ".bak" } else { "" })
+                }
+                else if (i - sweep - wrapped) % 10 == 7 {
+                    // parse a valid block first, then the same block with doubled braces inside literal text:
+                    // what the parser saw before must not make the malformed text acceptable
+                    let ops = wf_pipeline(&mut ctx.rng, 3); let b = print_block(&ops);
+                    let _ = real::parse(&b);
+                    ctx.rep.bump("doubled_braces_after_valid_parse");
+                    match ctx.rng.below(3) { 0 => format!("x{{{b}}}"), 1 => format!("{{{b}}} done"), _ => format!("id={{{b}}};") }
+                }
                 else { let ops = wf_pipeline(&mut ctx.rng, 4); let base = if ctx.rng.chance(1, 3) { format!("pre {} post", print_block(&ops)) } else { print_block(&ops) }; corrupt(&mut ctx.rng, &base) };
             ctx.rep.eval();
             if t.contains('{') && t.contains('}') { ctx.rep.nontrivial(&t); }
